@@ -168,6 +168,104 @@ def search_then(cls, clause, budget, rng):
     return None
 
 
+def marker_chains(depth=4):
+    """Trees over three iteration engines built from transfers, materializations and selections."""
+    from lsst.daf.relation import iteration
+    A_, B_, C_ = iteration.Engine(name="A"), iteration.Engine(name="B"), iteration.Engine(name="C")
+    rows = [{D.A: 1, D.Bt: 2}, {D.A: 0, D.Bt: 1}]
+    leaf = A_.make_leaf({D.A, D.Bt}, iteration.RowSequence(rows), name="L")
+    engines = (A_, B_, C_)
+    level, out = [leaf], [leaf]
+    for _ in range(depth):
+        nxt = []
+        for r in level:
+            for e in engines:
+                if e is not r.engine:
+                    nxt.append(r.engine and e.transfer(r))
+            nxt.append(r.materialized())
+            nxt.append(r.with_rows_satisfying(D.ref(D.A).gt(D.lit(0))))
+        nxt = [x for x in nxt if not any(x is y for y in out)]
+        out.extend(nxt)
+        level = nxt[:30]
+    return engines, out
+
+
+def search_transfer_simplify(clause, budget, rng):
+    from lsst.daf.relation import Transfer, MarkerRelation
+    engines, trees = marker_chains()
+    for t in trees:
+        for d in engines:
+            s = Transfer.simplify(t, d)
+            if s is None:
+                continue
+            if t.is_locked:
+                return f"Transfer.simplify({t}, {d}) looked through a locked relation and returned {s}"
+            if s.engine is not d:
+                return f"Transfer.simplify({t}, {d}) returned {s} in engine {s.engine}"
+            node = t
+            while node is not s:
+                if not isinstance(node, MarkerRelation) or node.is_locked:
+                    return f"Transfer.simplify({t}, {d}) = {s} skips the non-marker or locked node {node}"
+                node = node.target
+            if not D.same_rows(D.rows_of(s), D.rows_of(t)):
+                return f"Transfer.simplify({t}, {d}) = {s} has different rows"
+    return None
+
+
+def search_engine_transfer(clause, budget, rng):
+    from lsst.daf.relation import Transfer, MarkerRelation, Materialization, LeafRelation
+    engines, trees = marker_chains()
+
+    def locked_nodes(r):
+        out, stack = [], [r]
+        while stack:
+            x = stack.pop()
+            if isinstance(x, (Materialization, LeafRelation)):
+                out.append(x)
+            for n in ("target", "lhs", "rhs"):
+                if hasattr(x, n):
+                    stack.append(getattr(x, n))
+        return out
+
+    for t in trees:
+        for d in engines:
+            try:
+                r = d.transfer(t)
+            except Exception as e:
+                return f"{d}.transfer({t}) raised {type(e).__name__}: {e}"
+            if r.engine is not d:
+                return f"{d}.transfer({t}) returned {r} in engine {r.engine}"
+            if not D.same_rows(D.rows_of(r), D.rows_of(t)):
+                return f"{d}.transfer({t}) = {r} has different rows"
+            # no locked node of the input may be bypassed: the result is the input, a transfer of it, or reaches a
+            # sub-relation of the input through unlocked markers only
+            inner = r.target if isinstance(r, Transfer) and not any(r is x for x in trees) else r
+            node = t
+            while node is not inner:
+                if not isinstance(node, MarkerRelation) or node.is_locked:
+                    return f"{d}.transfer({t}) = {r}: the locked/non-marker node {node} of the input was bypassed"
+                node = node.target
+    return None
+
+
+def search_materialize(clause, budget, rng):
+    from lsst.daf.relation import Materialization, LeafRelation, MarkerRelation
+    engines, trees = marker_chains(3)
+    for t in trees:
+        m = t.materialized()
+        inner = t
+        while isinstance(inner, MarkerRelation) and not isinstance(inner, Materialization) and inner.engine is inner.target.engine:
+            inner = inner.target
+        already = isinstance(inner, (Materialization, LeafRelation))
+        if already and m is not t:
+            return f"materializing {t} (a leaf / materialized relation) added a new materialization: {m}"
+        if not already and not (isinstance(m, Materialization) and m.target is t):
+            return f"materializing {t} returned {m}"
+        if not D.same_rows(D.rows_of(m), D.rows_of(t)):
+            return f"materializing {t} changes rows"
+    return None
+
+
 def main():
     key, clause = sys.argv[1], sys.argv[2]
     budget = int(sys.argv[3]) if len(sys.argv) > 3 else 4000
@@ -175,12 +273,18 @@ def main():
     fn = key.split(":")[1]
     cls, _, meth = fn.partition(".")
     found = None
-    if meth == "commute":
+    if fn == "Transfer.simplify":
+        found = search_transfer_simplify(clause, budget, rng)
+    elif fn in ("Engine.materialize", "Materialization.simplify"):
+        found = search_materialize(clause, budget, rng)
+    elif meth == "commute":
         found = search_commute(cls, clause, budget, rng)
     elif meth == "simplify":
         found = search_simplify(cls, clause, budget, rng)
     elif meth == "then":
         found = search_then(cls, clause, budget, rng)
+    elif fn in ("Engine.transfer",) and key.startswith("_engine"):
+        found = search_engine_transfer(clause, budget, rng)
     else:
         print("NOT-REPRODUCED no concretiser for", key)
         return
